@@ -127,11 +127,15 @@ def errsum(exc, remaining=None):
 
 def raise_site(exc):
     """innermost tpmstream frame that raised (function name), for defect signatures"""
-    tb = traceback.extract_tb(exc.__traceback__)
-    for fr in reversed(tb):
-        if "tpmstream" in fr.filename:
-            return "%s:%s" % (fr.filename.rsplit("tpmstream/", 1)[-1], fr.name)
-    return tb[-1].name if tb else "?"
+    seen = 0
+    while exc is not None and seen < 4:
+        tb = traceback.extract_tb(exc.__traceback__)
+        for fr in reversed(tb):
+            if "/tpmstream/" in fr.filename:
+                return "%s:%s" % (fr.filename.rsplit("tpmstream/", 1)[-1], fr.name)
+        exc = exc.__cause__ or exc.__context__
+        seen += 1
+    return "?"
 
 
 def is_documented(exc):
